@@ -210,6 +210,16 @@ func (ev *vfEval) cmp(x, y Value) int {
 	return c
 }
 
+// try evaluates and returns the panic instead of raising it.
+func (ev *vfEval) try(e *vfExpr, row vfRow) (v Value, p any) {
+	defer func() {
+		if r := recover(); r != nil {
+			p = r
+		}
+	}()
+	return ev.eval(e, row), nil
+}
+
 func (ev *vfEval) bool(e *vfExpr, row vfRow) bool {
 	v := ev.eval(e, row)
 	if v == True {
@@ -307,11 +317,18 @@ func (ev *vfEval) eval(e *vfExpr, row vfRow) Value {
 	case "matchnot":
 		return OpMatch(vfTh, ev.eval(e.args[0], row), ev.eval(e.args[1], row)).Not()
 	case "tern":
+		// both branches are evaluated (to see every open comparison); only the chosen one may raise
+		t, tp := ev.try(e.args[1], row)
+		f, fp := ev.try(e.args[2], row)
 		c := ev.bool(e.args[0], row)
-		t := ev.eval(e.args[1], row)
-		f := ev.eval(e.args[2], row)
 		if c {
+			if tp != nil {
+				panic(tp)
+			}
 			return t
+		}
+		if fp != nil {
+			panic(fp)
 		}
 		return f
 	case "call":
